@@ -1,0 +1,23 @@
+//go:build verif
+
+package functions
+
+import "sync"
+
+// Accessors for the verification harness (/verif, property C20). Compiled only with -tags verif.
+
+// VerifResetExprCaches empties the process-wide program / preprocess caches of the
+// global expression bridge, so a run can start cold.
+func VerifResetExprCaches() {
+	b := GetExprBridge()
+	b.programCache = sync.Map{}
+	b.preprocessCache = sync.Map{}
+}
+
+// VerifExprCacheSizes reports the number of cached programs and preprocess results.
+func VerifExprCacheSizes() (programs, preprocessed int) {
+	b := GetExprBridge()
+	b.programCache.Range(func(_, _ any) bool { programs++; return true })
+	b.preprocessCache.Range(func(_, _ any) bool { preprocessed++; return true })
+	return
+}
